@@ -68,6 +68,10 @@ def run(ctx):
         ("LDPC(6,3)", lambda: E.LDPCCodeEncoder(check_matrix=H63), [("BeliefPropagationDecoder", lambda e: D.BeliefPropagationDecoder(e, bp_iters=10), "soft", False), ("MinSumLDPCDecoder", lambda e: D.MinSumLDPCDecoder(e, bp_iters=10), "soft", False)]),
         ("Polar(4,8)", lambda: E.PolarCodeEncoder(4, 8), [("SuccessiveCancellationDecoder", lambda e: D.SuccessiveCancellationDecoder(e), "soft", False), ("BeliefPropagationPolarDecoder", lambda e: D.BeliefPropagationPolarDecoder(e, bp_iters=20), "soft", False)]),
     ]
+    # polar codes with the non-default options (interleaved construction, frozen ones) and a length at which sub-block estimates are re-used
+    codes.append(("Polar(8,16,polar_i)", lambda: E.PolarCodeEncoder(8, 16, polar_i=True), [("SuccessiveCancellationDecoder", lambda e: D.SuccessiveCancellationDecoder(e), "soft", False)]))
+    codes.append(("Polar(8,16,frozen_ones)", lambda: E.PolarCodeEncoder(8, 16, frozen_zeros=False), [("SuccessiveCancellationDecoder", lambda e: D.SuccessiveCancellationDecoder(e), "soft", False),
+                                                                                                     ("BeliefPropagationPolarDecoder", lambda e: D.BeliefPropagationPolarDecoder(e, bp_iters=20), "soft", False)]))
     codes.append(("Hamming(4)", lambda: E.HammingCodeEncoder(mu=4), [("SyndromeLookupDecoder", lambda e: D.SyndromeLookupDecoder(e), "hard", True), ("BruteForceMLDecoder", lambda e: D.BruteForceMLDecoder(e), "hard", False)]))
     if not quick:
         codes += [("Golay(23,12)", lambda: E.GolayCodeEncoder(), [("SyndromeLookupDecoder", lambda e: D.SyndromeLookupDecoder(e), "hard", True)]),
